@@ -61,7 +61,7 @@ def main():
         ],
         "checks": checks,
         "not_applicable": na,
-        "notes": "fix: commits in /repo: 7059093 (C15), 0035e71 (C14), a34d719 (C13), 517b991 (C18); see known_findings.json and DESIGN.md section 7.",
+        "notes": "Genuine defects of /repo repaired by fix: commits and the open known findings are listed in known_findings.json and in DESIGN.md section 10.3; seeded changes and which check catches them: seeded/<id>/meta.json and DESIGN.md section 10.4; COVERAGE.md lists which functions are inside the formal development.",
     }
     with open(os.path.join(core.VERIF, "MANIFEST.json"), "w") as f:
         json.dump(man, f, indent=1)
